@@ -16,7 +16,7 @@
     first; L < B/2 etc. are all covered — the only relation RFC 2104 needs is L ≤ B) and no length guard (the byte
     counter of the engine wraps as RFC 7693's does).
   * `hkdf_blake2b`, `hkdf_blake2s` (extract incl. the refusal of a PRK buffer ≠ L; expand as an equality of
-    `Option`s incl. the refusal beyond 255·L), `pbkdf2_hmac_blake2b`, `pbkdf2_hmac_blake2s` (RFC 8018 §5.2 incl. the
+    `Option`s incl. the refusal of a PRK shorter than L and of every length beyond 255·L), `pbkdf2_hmac_blake2b`, `pbkdf2_hmac_blake2s` (RFC 8018 §5.2 incl. the
     refusals c = 0 and dkLen > (2^32−1)·L): instances of the generic theorems of Props/C10/Kdf.lean.
   * `ResultLen` (the one fact the translator tie of src/hmac.rs needs of the digest dictionary, Proofs/GlueMac.lean):
     the unrestricted statement is FALSE for the BLAKE2 dictionaries on junk objects that no constructor builds
@@ -136,14 +136,16 @@ example : HmacCorrectObj (blake2sDigest codeVariant) (Blake2.new Impl.Blake2.s 2
 /-! ## 3. HKDF and PBKDF2-HMAC (property C10) -/
 
 /-- HKDF for a digest type (`hkdf_extract(new, …)`, `hkdf_expand(new, …)`): RFC 5869 §2.2 (refusing a PRK buffer whose
-    length is not L), §2.3 as an equality of `Option`s, and the refusal exactly beyond 255·L -/
+    length is not L), §2.3 as an equality of `Option`s, and the refusal exactly for a PRK shorter than L
+    (`assert!(prk.len() >= digest.output_bytes())`) or an output beyond 255·L -/
 def HkdfCorrectObj {δ : Type} (D : DigestModel δ) (new : Option δ) (H : Fn) (B L : Nat) : Prop :=
   ∃ d0, new = some d0 ∧
     (∀ (salt ikm : Bytes) (prkLen : Nat),
       hkdf_extract D d0 salt ikm prkLen = if prkLen = L then some (Spec.Kdf.hkdfExtract H B salt ikm) else none) ∧
     (∀ (prk info : Bytes) (okmLen : Nat),
       hkdf_expand D d0 prk info okmLen = Spec.Kdf.hkdfExpand H B L prk info okmLen) ∧
-    (∀ (prk info : Bytes) (okmLen : Nat), hkdf_expand D d0 prk info okmLen = none ↔ 255 * L < okmLen)
+    (∀ (prk info : Bytes) (okmLen : Nat),
+      hkdf_expand D d0 prk info okmLen = none ↔ (prk.length < L ∨ 255 * L < okmLen))
 
 theorem hkdf_obj {δ : Type} (D : DigestModel δ) (new : Option δ) (H : Fn) (B L bits : Nat)
     (RelD : δ → Fn → Bytes → Prop) (FinD : δ → Fn → Prop)
